@@ -228,12 +228,32 @@ Definition ea_dump (v : dump_variant) (W : world) (rt : routing) (start end_ : Z
   dump_outer (Z.to_nat (endK - startK + 1)) v W rt startK endK start 0 end_ data st.
 
 (* ------------------------------------------------------------------ scripts of bus operations (tie) *)
+(* 63-bit digest used to compare long observations (the bytes a dump left in data, the ordered log of what
+   the memories received, the final contents of the slices) with the harness: h' = (h*1000003 + v + 1) & (2^63 - 1),
+   the same fold as busMix in harness/bustool.go *)
+Definition mixz (h v : Z) : Z := Z.land (h * 1000003 + v + 1) 9223372036854775807.
+Definition dig_list (l : list Z) : Z := fold_left mixz l 0.
+Definition dig_event (h : Z) (e : event) : Z :=
+  let '(id, k, a, v) := e in mixz (mixz (mixz (mixz h id) k) a) v.
+(* the log is kept newest first: fold from its old end *)
+Definition dig_log (l : list event) : Z := fold_right (fun e h => dig_event h e) 0 l.
+
+(* contents of a RAM/ROM slice at the start of a case: explicit bytes, or the harness' pattern busFill *)
+Inductive init_data := Bytes (l : list Z) | Fill (seed n : Z).
+Definition fill_byte (seed i : Z) : Z := (seed + i * 7 + (i / 16) * 3) mod 256.
+Definition init_bytes (d : init_data) : list Z :=
+  match d with
+  | Bytes l => l
+  | Fill seed n => map (fill_byte seed) (ziota 0 n)
+  end.
+
 (* one operation on a bus together with what the compiled code was observed to do *)
 Inductive op :=
 | OpAttach (m start end_ : Z) (obs : Z)                  (* obs: 0 = nil error, 1 = error, 2 = panic *)
 | OpRead (a : Z) (obs : Z)                               (* obs: the byte, -1 = panic *)
 | OpWrite (a v : Z) (obs : Z)                            (* obs: 0 = returned, -1 = panic *)
-| OpDump (start end_ : Z) (data : list Z) (obs_n : Z) (obs_data : list Z).  (* obs_n = -1: panic *)
+| OpDump (start end_ : Z) (sent len : Z) (obs_n : Z) (obs_data : Z).
+  (* data = len bytes of sent; obs_n = -1: panic; obs_data = digest of data afterwards (0 after a panic) *)
 
 Definition res_state {A} (r : res A) : state := match r with Ok _ s => s | Panic s => s end.
 
@@ -256,9 +276,9 @@ Definition run_op (v : dump_variant) (W : world) (o : op) (rt : routing) (st : s
       | Ok _ st' => (obs =? 0, rt, st')
       | Panic st' => (obs =? -1, rt, st')
       end
-  | OpDump s e data obs_n obs_data =>
-      match ea_dump v W rt s e data st with
-      | Ok (n, data') st' => ((obs_n =? n) && list_eqb data' obs_data, rt, st')
+  | OpDump s e sent len obs_n obs_data =>
+      match ea_dump v W rt s e (repeat sent (Z.to_nat len)) st with
+      | Ok (n, data') st' => ((obs_n =? n) && (dig_list data' =? obs_data), rt, st')
       | Panic st' => (obs_n =? -1, rt, st')
       end
   end.
@@ -271,31 +291,50 @@ Fixpoint run_ops (v : dump_variant) (W : world) (ops : list op) (rt : routing) (
       if ok then run_ops v W r rt' st' else (false, st')
   end.
 
-Definition ev_eqb (x y : event) : bool :=
-  let '(a1, b1, c1, d1) := x in let '(a2, b2, c2, d2) := y in
-  (a1 =? a2) && (b1 =? b2) && (c1 =? c2) && (d1 =? d2).
-Fixpoint evs_eqb (x y : list event) : bool :=
-  match x, y with
-  | [], [] => true
-  | a :: x', b :: y' => ev_eqb a b && evs_eqb x' y'
-  | _, _ => false
-  end.
-Fixpoint stores_eqb (st : state) (obs : list (Z * list Z)) : bool :=
+Fixpoint stores_agree (st : state) (obs : list (Z * Z)) : bool :=
   match obs with
   | [] => true
-  | (id, d) :: r => list_eqb (get_store st id) d && stores_eqb st r
+  | (id, d) :: r => (dig_list (get_store st id) =? d) && stores_agree st r
   end.
 
-(* a case: the memories (kind and initial contents), the script with its observations, the ordered log of
-   everything the memories received, the final contents of the slices *)
+(* a case: the memories (kind and initial contents), the script with its observations, length and digest of
+   the ordered log of everything the memories received, digests of the final contents of the slices *)
 Record case := mkCase {
   c_world : list (Z * kind);
-  c_init : list (Z * list Z);
+  c_init : list (Z * init_data);
   c_ops : list op;
-  c_log : list event;
-  c_final : list (Z * list Z)
+  c_loglen : Z;
+  c_log : Z;
+  c_final : list (Z * Z)
 }.
 
 Definition agrees (v : dump_variant) (c : case) : bool :=
-  let '(ok, st) := run_ops v (world_of (c_world c)) (c_ops c) empty_rt (mkState [] (c_init c)) in
-  ok && evs_eqb (rev (log st)) (c_log c) && stores_eqb st (c_final c).
+  let st0 := mkState [] (map (fun p => (fst p, init_bytes (snd p))) (c_init c)) in
+  let '(ok, st) := run_ops v (world_of (c_world c)) (c_ops c) empty_rt st0 in
+  ok && (zlen (log st) =? c_loglen c) && (dig_log (log st) =? c_log c) && stores_agree st (c_final c).
+
+(* what the model does on a case, written out (used to explain a disagreement; not part of the tie) *)
+Definition show_op (v : dump_variant) (W : world) (o : op) (rt : routing) (st : state) : Z * list Z :=
+  match o with
+  | OpAttach m s e _ => (match attach rt m s e with AOk _ => 0 | AErr => 1 | APanic _ => 2 end, [])
+  | OpRead a _ => (match ea_read W rt a st with Ok b _ => b | Panic _ => -1 end, [])
+  | OpWrite a b _ => (match ea_write W rt a b st with Ok _ _ => 0 | Panic _ => -1 end, [])
+  | OpDump s e sent len _ _ =>
+      match ea_dump v W rt s e (repeat sent (Z.to_nat len)) st with
+      | Ok (n, d) _ => (n, d)
+      | Panic _ => (-1, [])
+      end
+  end.
+Fixpoint show_ops (v : dump_variant) (W : world) (ops : list op) (rt : routing) (st : state)
+  : list (Z * list Z) * state :=
+  match ops with
+  | [] => ([], st)
+  | o :: r =>
+      let '(_, rt', st') := run_op v W o rt st in
+      let '(rest, stf) := show_ops v W r rt' st' in
+      (show_op v W o rt st :: rest, stf)
+  end.
+Definition show_case (v : dump_variant) (c : case) : list (Z * list Z) * list event :=
+  let st0 := mkState [] (map (fun p => (fst p, init_bytes (snd p))) (c_init c)) in
+  let '(outs, st) := show_ops v (world_of (c_world c)) (c_ops c) empty_rt st0 in
+  (outs, rev (log st)).
